@@ -128,6 +128,47 @@ ENSURES(vf_w_lo == vf_w_hi ==> RESULT == -1)
 #endif
 
 #ifndef VF_NATIVE
+
+#if defined(VF_G_hsort_b) || defined(VF_G_hsort)
+/* C11, memory safety of heap sort for EVERY count and ARBITRARY comparison outcomes: every element
+ * handed to the comparison or exchanged lies inside the array, no index arithmetic overflows, the
+ * loops terminate, and (frame) nothing but the array and the one scratch element is written.  What
+ * the sort computes (sorted permutation) is bounded: rawarray.b.*. */
+int vf_cmp_any2(const void * a, const void * b, void * p)
+{
+    (void)p;
+    if (!__CPROVER_r_ok(a, VF_ESZ) || !__CPROVER_r_ok(b, VF_ESZ) || !__CPROVER_same_object(a, vf_zone_base) || !__CPROVER_same_object(b, vf_zone_base) ||
+        __CPROVER_POINTER_OFFSET(a) % VF_ESZ != 0 || __CPROVER_POINTER_OFFSET(b) % VF_ESZ != 0) {
+        vf_cmp_bad = 1;
+    }
+    vf_cmp_calls++;
+    return nondet_int();
+}
+cstl_compare_func_t * const vf_anchor_cmp_any2 = vf_cmp_any2;
+#ifdef VF_G_hsort_b
+#define HS_OBJ(arr, count, t)  (FRESH(arr, (count) * VF_ESZ) && FRESH(t, VF_ESZ))
+#else
+/* (as a callee of hsort the array is the caller's object, possibly a prefix of it) */
+#define HS_OBJ(arr, count, t)  (__CPROVER_rw_ok(arr, (count) * VF_ESZ) && __CPROVER_POINTER_OFFSET(arr) == 0 && __CPROVER_rw_ok(t, VF_ESZ) && !__CPROVER_same_object(arr, t))
+#endif
+static void cstl_raw_array_hsort_b(void * const arr, const size_t count, const size_t size, size_t n,
+                                   cstl_compare_func_t * const cmp, void * const priv, cstl_swap_func_t * const swap, void * const tmp)
+REQUIRES(size == VF_ESZ && count >= 1 && (vf_u128)count * VF_ESZ <= R_MAXB && HS_OBJ(arr, count, tmp) && n < count)
+REQUIRES(cmp == vf_cmp_any2 && swap == cstl_swap && !vf_cmp_bad && vf_zone_base == arr)
+ASSIGNS(__CPROVER_object_whole(arr), __CPROVER_object_whole(tmp), vf_cmp_calls, vf_cmp_bad)
+ENSURES(!vf_cmp_bad)
+;
+#ifdef VF_G_hsort
+void cstl_raw_array_hsort(void * const arr, const size_t count, const size_t size,
+                          cstl_compare_func_t * const cmp, void * const priv, cstl_swap_func_t * const swap, void * const tmp)
+REQUIRES(size == VF_ESZ && count >= 1 && (vf_u128)count * VF_ESZ <= R_MAXB && FRESH(arr, count * VF_ESZ) && FRESH(tmp, VF_ESZ))
+REQUIRES(cmp == vf_cmp_any2 && swap == cstl_swap && !vf_cmp_bad && vf_zone_base == arr && vf_w_count == count)
+ASSIGNS(__CPROVER_object_whole(arr), __CPROVER_object_whole(tmp), vf_cmp_calls, vf_cmp_bad)
+ENSURES(!vf_cmp_bad)
+;
+#endif
+#endif
+
 const void * nondet_cptr(void);
 void h_search_func(void)
 {
@@ -137,6 +178,26 @@ void h_search_func(void)
     cstl_raw_array_search(arr, count, VF_ESZ, ex, vf_cmp_zone, priv);
     VF_END();
 }
+#if defined(VF_G_hsort_b) || defined(VF_G_hsort)
+void h_hsort_b(void)
+{
+    void * arr, * t, * priv; size_t count = nondet_size_t(), n = nondet_size_t();
+    VF_IN_SIZE(count);
+    vf_zone_base = nondet_cptr();
+    cstl_raw_array_hsort_b(arr, count, VF_ESZ, n, vf_cmp_any2, priv, cstl_swap, t);
+    VF_END();
+}
+#endif
+#ifdef VF_G_hsort
+void h_hsort(void)
+{
+    void * arr, * t, * priv; size_t count = nondet_size_t();
+    VF_IN_SIZE(count);
+    vf_zone_base = nondet_cptr();
+    cstl_raw_array_hsort(arr, count, VF_ESZ, vf_cmp_any2, priv, cstl_swap, t);
+    VF_END();
+}
+#endif
 void h_find(void)
 {
     void * arr, * ex, * priv; size_t count = nondet_size_t();
